@@ -1,38 +1,33 @@
 /-
-C11 P1, finding for Q3c: `VisitedStable` is NOT a consequence of reachability.
+C11 P1, a cycle cut short inside its hand-over passes (defect D33, repaired in /repo by 552b64c).
 
 `C11_primary_file_released_unconditional` (Sth/Props/C13H.lean) assumes on the reached state
   `VisitedStable s f`:  f in the visited set and without a record span  ⇒  f is empty.
-This cannot be derived from premises on the configuration and the calls alone: it is FALSE in a reachable
-state, and then P1 itself fails — a closed file no index entry points into is never released, by any
-number of complete cycles, until a restart clears the visited set.
 
-HOW.  A primary GC cycle that is cut short INSIDE its hand-over passes — after deleteRecords has marked
-the spans named by the hand-over file, before the affected files are taken out of the visited set —
-returns with the visited set unchanged and the hand-over file `.gc` still in place
-(`freelistPass` of Sth/Model/GC.lean: the second poll; on the real code, store/primary/multihash/gc.go:
-`processFreeList` applies the batch in the iteration that reads the last entry and returns `ctx.Err()`
-at the top of the next one, `gc()` returns at once, the `affected` map is dropped).  The next cycle gets
-the same `.gc` file back from ToGC and applies it again, but deleteRecords counts only spans it marks
-NEWLY, so the file is not "affected", stays in the visited set, and the loop skips it.
+BEFORE THE REPAIR this was false in a reachable state, and P1 itself failed there: a primary GC cycle cut short
+INSIDE its hand-over passes — after deleteRecords had marked the spans named by the hand-over file, before the
+affected files were taken out of the visited set — returned with the visited set unchanged and the hand-over file
+`.gc` still in place (store/primary/multihash/gc.go: `processFreeList` applies the batch in the iteration that reads
+the last entry and returns `ctx.Err()` at the top of the next one; `gc()` returned at once and the `affected` map was
+dropped).  The next cycle got the same `.gc` file back from ToGC and applied it again, but deleteRecords counts only
+spans it marks NEWLY, so the file was not "affected", stayed in the visited set, and no number of complete cycles
+released it until a restart cleared the visited set.  This file recorded that run by `decide` on the model; the
+sequential engine then reproduced it on the real code through the exported `MultihashPrimary.GC(ctx, …)` with a
+context that expires inside the pass (corpus/seq/d33-cut-handover-pass-file-never-revisited.ops).
+
+THE REPAIR: `processFreeList` returns the files affected so far together with the error, and `gc()` takes them (and
+those of the first pass) out of the visited set before it returns the error.  The model follows (`unvisit` in
+`primaryGC`, Sth/Model/GC.lean), and the examples below now record the repaired run.
 
 THE RUN (`exOps11v`, 40-byte primary files, threshold 101 so that nothing is ever relocated):
 file 0 = [A][B] is closed, B is removed, a complete cycle cuts B off and puts file 0 (13 bytes, A in use)
 into the visited set; A is removed and flushed; `pgc 101 (some 1)` — one poll succeeds, the second
-expires — marks A deleted and returns.  Now file 0 is visited, has no record span, 13 bytes:
-`VisitedStable` is false, every other premise of P1 holds, and two complete cycles leave it as it is;
-after a reopen one complete cycle unlinks it.  With `some 2` the same cycle gets past its passes and
-releases the file.  All by `decide`.
+expires — marks A deleted, takes file 0 out of the visited set and returns with `.gc` still in place:
+`VisitedStable` holds, and the next complete cycle unlinks the file.
 
-ON THE REAL CODE the time limit of a cycle is started AFTER the passes (`context.WithTimeout` follows
-them), so the passes are only cut short by the cancellation of the collector's own context, i.e. at
-Close, after which the collector (and its visited set) is discarded.  The model's `pgc l (some k)`
-followed by further calls without a reopen has no counterpart in the real store's own loop; it has one
-for a caller that drives `gc` with a context of its own.  So: an observation about the function, not a
-defect of the store as shipped.
-
-CONSEQUENCE FOR THE STATEMENT.  The premise that restores P1 is run-dependent, like `GcCountersOK`:
-no cycle of the history is cut short inside its hand-over passes (`PassesOK`, Sth/Props/C11G.lean).
+The theorems of Sth/Props/C11G.lean still carry the run-dependent premise `PassesOK` (no cycle of the history is cut
+short inside its hand-over passes): they were proved against the model before the repair, and the premise is now
+stronger than needed.
 -/
 import Sth.Props.C13H
 
@@ -66,22 +61,20 @@ example : ∃ s, initS exCfg11v = some s ∧
     exInfo11v (runS s exOps11v).1 = (([(0, 13), (1, 13)], [0], some 0, 0, none), (1, true, true)) :=
   ⟨_, rfl, by decide +kernel, by decide +kernel⟩
 
-/-- the cycle cut short inside the hand-over pass: A is marked, file 0 stays visited, `.gc` stays -/
+/-- the cycle cut short inside the hand-over pass: A is marked, `.gc` stays, and file 0 LEAVES the visited set -/
 example : ∃ s, initS exCfg11v = some s ∧
     exInfo11v (runS s (exOps11v ++ [.pgc 101 (some 1)])).1 =
-      (([(0, 13), (1, 13)], [0], some 0, 0, some 12), (0, true, false)) :=
+      (([(0, 13), (1, 13)], [], some 0, 0, some 12), (0, true, true)) :=
   ⟨_, rfl, by decide +kernel⟩
 
-/-- complete cycles do not release file 0 … -/
-example : ∃ s, initS exCfg11v = some s ∧
+/-- the next complete cycle releases file 0 (before the repair: never, see the header) -/
+theorem C11_cut_handover_pass_file_released : ∃ s, initS exCfg11v = some s ∧
     exInfo11v (runS s (exOps11v ++ [.pgc 101 (some 1), .pgc 101 none])).1 =
-      (([(0, 13), (1, 13)], [0], some 0, 0, none), (0, true, false)) ∧
-    exInfo11v (runS s (exOps11v ++ [.pgc 101 (some 1), .pgc 101 none, .pgc 101 none])).1 =
-      (([(0, 13), (1, 13)], [0], some 0, 0, none), (0, true, false)) ∧
-    ¬ Released (runS s (exOps11v ++ [.pgc 101 (some 1), .pgc 101 none, .pgc 101 none])).1.d.pfiles 0 :=
-  ⟨_, rfl, by decide +kernel, by decide +kernel, by decide +kernel⟩
+      (([(1, 13)], [0], some 1, 0, none), (0, true, true)) ∧
+    Released (runS s (exOps11v ++ [.pgc 101 (some 1), .pgc 101 none])).1.d.pfiles 0 :=
+  ⟨_, rfl, by decide +kernel, by decide +kernel⟩
 
-/-- … until a restart; and a cycle that gets past its passes (one more poll) releases it at once -/
+/-- the same end state as after a restart, and as after a cycle that gets past its passes (one more poll) -/
 example : ∃ s, initS exCfg11v = some s ∧
     exInfo11v (runS s (exOps11v ++ [.pgc 101 (some 1), .reopen [] false, .pgc 101 none])).1 =
       (([(1, 13)], [0], some 1, 0, none), (0, true, true)) ∧
